@@ -41,9 +41,16 @@ let parse_op tok : op =
   | ["aa"; n; a] -> Mut (MNodeAssignAttr (cn n, cz a))
   | ["ra"; n; a] -> Mut (MNodeRemoveAttr (cn n, cz a))
   | ["er"; e; sg; cap; inmsg] -> Mut (MEnumAddRef (cn e, cz sg, (if cap = "-" then None else Some (cz cap)), inmsg = "1"))
-  | ["av"; e; v; idx] -> Mut (MEnumAddValue (cn e, cz v, cz idx))
+  | ["av"; e; v; idx; pf] -> Mut (MEnumAddValue (cn e, cz v, cz idx, (if pf = "-" then None else Some (cz pf))))
   | ["rv"; e; v] -> Mut (MEnumRemoveValue (cn e, cz v))
-  | ["ri"; e; v; idx] -> Mut (MEnumReindex (cn e, cz v, cz idx))
+  | ["ri"; e; v; idx; pf] -> Mut (MEnumReindex (cn e, cz v, cz idx, (if pf = "-" then None else Some (cz pf))))
+  | ["nt"; f] -> Mut (MNewType (zlist f))
+  | ["nu"; sym] -> Mut (MNewUnit (cz sym))
+  | ["nd"; f] -> Mut (MNewAttrDef (zlist f))
+  | ["ns"; t; u] -> Mut (MNewSig (cz t, cz u))
+  | ["sa"; sg; a] -> Mut (MSigAssignAttr (cn sg, cz a))
+  | ["ma"; m; a] -> Mut (MMsgAssignAttr (cn m, cz a))
+  | ["mr"; m; n; i] -> Mut (MMsgAddRecv (cn m, cn n, cn i))
   | ["Rga"; n; a] -> Ro (RNodeGetAttr (cn n, cz a))
   | ["Rgv"; e; v] -> Ro (REnumGetValue (cn e, cz v))
   | ["Rnf"; n] -> Ro (RNodeFields (cn n))
@@ -59,6 +66,14 @@ let parse_op tok : op =
   | ["Rms"; m] -> Ro (RMsgSignals (cn m))
   | ["Rmc"; m] -> Ro (RMsgCanID (cn m))
   | ["Rld"; b] -> Ro (RBusLoad (cn b))
+  | ["Rba"; b] -> Ro (RBusAttrs (cn b))
+  | ["Rmr"; m] -> Ro (RMsgRecv (cn m))
+  | ["Rma"; m] -> Ro (RMsgAttrs (cn m))
+  | ["Rsf"; sg] -> Ro (RSigFields (cn sg))
+  | ["Rsa"; sg] -> Ro (RSigAttrs (cn sg))
+  | ["Rtf"; t] -> Ro (RTypeFields (cn t))
+  | ["Ruf"; u] -> Ro (RUnitFields (cn u))
+  | ["Rad"; a] -> Ro (RAttrDef (cn a))
   | _ -> failwith ("bad op " ^ tok)
 
 let render res st =
